@@ -5,6 +5,7 @@ import os
 import shutil
 
 from lib.verif import *
+from props import c09_paths
 
 THEOREMS = [
     "C09_sound", "C09_complete", "C09_failure_names_violated_rule",
@@ -15,7 +16,10 @@ THEOREMS = [
 MODULE = "LV.Policy.Props"
 TARGETS = ["theories/Policy/Props.vo", "theories/Policy/Exec.vo",
            "theories/Policy/Examples.vo", "theories/Policy/GenBridge.vo"]
-HARNESS = ["htlcswitch/verif_policy_test.go"]
+HARNESS = ["htlcswitch/verif_policy_test.go", "htlcswitch/verif_policy_paths_test.go"]
+# keys of a path row (c09_paths) that are observations, not inputs
+PATH_OBS = ("pkgs", "calls", "settled", "forwarded", "alice_ok", "alice_err", "alice_arg", "fired", "note",
+            "wall_ms", "out_scid", "chanbw")
 WARM = [{"pkg": "htlcswitch", "files": HARNESS}]
 IMPORTS = ("From Coq Require Import List ZArith NArith.\nImport ListNotations.\n"
            "From LV Require Import Policy.Model Policy.Exec.\n"
@@ -259,7 +263,58 @@ def sel_predicate(c):
 
 
 def inputs_of(c):
-    return {k: v for k, v in c.items() if k not in ("case", "cls", "name")}
+    return {k: v for k, v in c.items() if k not in ("case", "cls", "name") + PATH_OBS}
+
+
+def judge_paths(ctx, prows, theorem_suffix=""):
+    """End-to-end / argument-plumbing predicates of the path stage.  Returns
+    (#rows with a finding, rows that carry a policy decision)."""
+    nbad = 0
+    shown = 0
+    for r in prows:
+        fs = c09_paths.judge(r)
+        if not fs:
+            continue
+        nbad += 1
+        for kind, thm, msg, fi, sig in fs:
+            if shown >= 4:
+                break
+            shown += 1
+            ctx.violation(kind, thm + theorem_suffix,
+                          {"case": r, "fails": [msg], "clauses": clauses(r) if r.get("code", -1) >= 0 else None},
+                          signature="policy path %s: %s" % (r["path"], sig), failing_input=fi)
+    return nbad, [r for r in prows if (r.get("calls") or []) and not r.get("note")]
+
+
+def replay_path(ctx, c):
+    """--replay of a path-stage case: the same scenario (path, policies, HTLC)
+    is run again on the real link + switch of the current tree."""
+    ctx.proof_stage(MODULE, THEOREMS, TARGETS)
+    rc, trace, out = run_harness(ctx.uid("r"), "htlcswitch", HARNESS, "^TestVerifPolicyPaths$",
+                                 env={"VERIF_PP_SPEC": json.dumps(c["spec"])})
+    prows = read_jsonl(trace + ".paths")
+    if rc != 0 or not prows:
+        ctx.violation("harness_failed", "TestVerifPolicyPaths", {"log": out[-4000:]},
+                      signature="harness", failing_input=False)
+        return
+    r = prows[0]
+    ctx.note("replayed path case %s now yields %s, forwarded=%s (recorded: %s, forwarded=%s)" % (
+        r["path"], r["name"], r.get("forwarded"), c.get("name"), c.get("forwarded")))
+    _, dec = judge_paths(ctx, prows, " (replay)")
+    for d in dec:
+        f = predicate(d)
+        ok, bad, logs = coq_mismatches(ctx.uid("r"), IMPORTS, [case_term(d)], mism="mismatches_all",
+                                       scope="Z_scope")
+        if f:
+            ctx.violation("impl_violates_predicate", "C09 replay", {"case": d, "fails": f},
+                          signature="policy path %s %s: %s" % (d["path"], d["name"], f[0]))
+        if bad or not ok:
+            ctx.violation("correspondence_mismatch", "Policy.Exec.check_case (replay)",
+                          {"case": d, "model": bad, "logs": logs}, signature="policy mismatch replay",
+                          failing_input=bool(f))
+    ctx.cov.update({"evaluations": 1, "distinct_nontrivial": 1, "traces_validated_against_impl": 1,
+                    "rule": "single replayed path scenario", "samples": [inputs_of(r)],
+                    "paths": c09_paths.coverage(prows)})
 
 
 def replay(ctx):
@@ -271,6 +326,8 @@ def replay(ctx):
         ctx.note("replay file carries no single policy case; running the normal check")
         ctx.replay = None
         return run(ctx)
+    if c.get("path") and c.get("spec"):
+        return replay_path(ctx, c)
     ctx.proof_stage(MODULE, THEOREMS, TARGETS)
     rc, trace, out = run_harness(ctx.uid("r"), "htlcswitch", HARNESS, "^TestVerifPolicy$",
                                  env={"VERIF_REPLAY_CASE": json.dumps(inputs_of(c)), "VERIF_CASES": "0"})
@@ -306,15 +363,23 @@ def run(ctx):
         return replay(ctx)
     if ctx.thorough:
         ncases = {"VERIF_CASES": os.environ.get("VERIF_CASES", "400000")}
-    rc, trace, out = run_harness(ctx.uid(), "htlcswitch", HARNESS, "^TestVerifPolicy$",
+    rc, trace, out = run_harness(ctx.uid(), "htlcswitch", HARNESS, "^TestVerifPolicy(Paths)?$",
                                  env=ncases, timeout=1500)
     allrows = read_jsonl(trace)
     rows = [c for c in allrows if c["kind"] != "select"]
     sel = [c for c in allrows if c["kind"] == "select"]
-    if rc != 0 or not rows or not sel:
-        ctx.violation("harness_failed", "TestVerifPolicy", {"log": out[-4000:]},
+    prows = sorted(read_jsonl(trace + ".paths"), key=lambda r: r["case"])
+    if rc != 0 or not rows or not sel or not prows:
+        ctx.violation("harness_failed", "TestVerifPolicy/TestVerifPolicyPaths", {"log": out[-4000:]},
                       signature="harness", failing_input=False)
         return
+    # ---- path stage: the decision observed on every path by which a forwarded
+    # ADD reaches the policy check (real link + switch, restarts, flaps).  The
+    # rows that carry a decision join the ordinary rows: python predicate and
+    # Coq model are evaluated on the CONFIGURED policies / the HTLC as sent.
+    npath_bad, pdec = judge_paths(ctx, prows)
+    first_path_row = len(rows)
+    rows += pdec
     # ---- property predicate on the implementation's answers
     nfail = 0
     judged = 0
@@ -327,7 +392,8 @@ def run(ctx):
             if nfail <= 3:
                 ctx.violation("impl_violates_predicate", "C09_sound/C09_complete/C09_failure_names_violated_rule",
                               {"case": c, "fails": f, "clauses": clauses(c)},
-                              signature="policy %s %s: %s" % (c["kind"], c["name"], f[0]))
+                              signature="policy %s %s: %s" % (
+                                  ("path " + c["path"]) if c.get("path") else c["kind"], c["name"], f[0]))
     # ---- the Coq witnesses (theorems *_refuted_outside) replayed on the real code
     expect = {"witness:accept-expired": (0, 0), "witness:reject-valid": (5, 0),
               "witness:fee-overflow": (0, 0), "example:boundary": None}
@@ -380,7 +446,8 @@ def run(ctx):
     # paths have to agree there (cross-check of the extraction).
     kslice = 3000 if ctx.thorough else 400
     stride = max(1, len(rows) // kslice)
-    kidx = sorted(set(range(min(5, len(rows)))) | set(range(0, len(rows), stride)) | set(flagged[:60]))
+    kidx = sorted(set(range(min(5, len(rows)))) | set(range(0, len(rows), stride)) | set(flagged[:60])
+                  | set(range(first_path_row, len(rows))))
     if not verd:
         kidx = list(range(len(rows)))       # extraction unavailable: everything in the kernel
     terms = [case_term(rows[i]) for i in kidx]
@@ -479,13 +546,18 @@ def run(ctx):
                                for k in sorted({c["name"] for c in sel})},
         "selection_mismatches": len(sbad) + nsel_fail,
         "witness_replays_on_real_code": wit,
+        "paths": dict(c09_paths.coverage(prows), rows_with_findings=npath_bad,
+                      rows_joined_to_predicate_and_model=len(pdec)),
     })
     ctx.assumptions += [
         "D (domain of C09_machine_eq_spec): in < 2^63, out <= 2^42 msat (43.98 BTC), base fee < 2^32, "
         "fee rate <= 10^6 ppm, inbound base any int32, |inbound rate| <= 10^6 ppm, height, "
         "OutgoingCltvRejectDelta, MaxOutgoingCltvExpiry < 2^31; outside D the machine model is still "
         "compared with the implementation but the unbounded rule is not claimed",
-        "FailAliasUpdate returns nil (ordinary channel); no goroutines involved",
+        "FailAliasUpdate returns nil (ordinary channel); no goroutines involved in the decision function "
+        "stage; the path stage runs lnd's three-hop test fixture (mock peers/onion decoder, real "
+        "channels, links, switch, circuit map, forwarding packages); process death is emulated by "
+        "losing the in-memory batch at the stop point and restarting every node from its database",
     ]
     if ctx.thorough:
         ctx.coqchk(["LV.Policy.Props"])
